@@ -28,4 +28,7 @@ PROPS = {
  "C16": P("C16", ["Properties_C16.v"], 150, 3000, ALL_BRIDGE),
  "C17": P("C17", ["Properties_C17.v"], 150, 1200, ["G_quat_omegaToQDot", "G_st_apply", "G_st_mul"],
           skip_labels=("ikq_full", "ikok_full", "ikerr_full", "iksteps_full", "asmq_full", "asmok_full")),
+ "C18": P("C18", ["Properties_C18.v"], 200, 2000, [],
+          skip_labels=("curve", "nseg", "xcp", "ycp", "xcp_raw", "ycp_raw", "dom", "cinv", "tm_tau", "tm_act", "tm_mult", "tm_partials", "tm_fd"),
+          rule="cases from tools/gen_cases.py profile C18; distinct = distinct (curve factory, routine multiset) signatures"),
 }
